@@ -109,6 +109,8 @@ def run(check, tier):
             kinds[c["k"]["k"]] = kinds.get(c["k"]["k"], 0) + 1
         else:
             kinds["outside-K"] = kinds.get("outside-K", 0) + 1
+        if res.get("unmodelled"):
+            check.count("outside_K_is_last_raises")
         if res.get("rejected"):
             check.count("rejected_by_both")
         if res["nontrivial"]:
